@@ -230,4 +230,407 @@ theorem calleeQn_adjustCtx : ∀ (e : Expr) (ov : Option Ctx), calleeQn (adjustC
   | .noneMarker, _ => by simp [adjustCtx, calleeQn, qnStr]
   | .other .., _ => by simp [adjustCtx, calleeQn, qnStr]
 
+theorem isNameOf_adjustCtx (s : String) (ov : Option Ctx) (e : Expr) : isNameOf s (adjustCtx ov e) = isNameOf s e := by
+  cases e <;> simp [adjustCtx, isNameOf]
+  rename_i i k es c
+  cases k <;> simp [adjustCtx]
+
+theorem length_adjustCtxs (ov : Option Ctx) : ∀ (es : List Expr), (adjustCtxs ov es).length = es.length
+  | [] => by simp [adjustCtxs]
+  | e :: es => by simp [adjustCtxs, length_adjustCtxs ov es]
+
+theorem isEmpty_adjustCtxs (ov : Option Ctx) (es : List Expr) : (adjustCtxs ov es).isEmpty = es.isEmpty := by
+  cases es <;> simp [adjustCtxs]
+
+theorem packOk_adjustCtx (pos : Pos) (o1 o2 o3 : Option Ctx) (f : Expr) (as ks : List Expr) :
+    packOk pos (adjustCtx o1 f) (adjustCtxs o2 as) (adjustCtxs o3 ks) = packOk pos f as ks := by
+  cases pos <;> simp [packOk, isNameOf_adjustCtx, length_adjustCtxs, isEmpty_adjustCtxs]
+
+mutual
+theorem offE_adjustCtx (cfg : Cfg) (sc : List String) (w : Bool) :
+    ∀ (e : Expr) (ov : Option Ctx) (pos : Pos), offE cfg sc w pos (adjustCtx ov e) = offE cfg sc w pos e
+  | .name .., _, _ => by simp [adjustCtx, offE]
+  | .const .., _, _ => by simp [adjustCtx, offE]
+  | .noneMarker, _, _ => by simp [adjustCtx, offE]
+  | .call i f as ks, ov, pos => by
+      simp [adjustCtx, offE, callOk, packOk_adjustCtx, calleeQn_adjustCtx, qnStr_adjustCtx,
+        offE_adjustCtx cfg sc w f, offEs_adjustCtx cfg sc w as, offEs_adjustCtx cfg sc w ks]
+  | .boolop i b vs, ov, pos => by simp [adjustCtx, offE, offEs_adjustCtx cfg sc w vs]
+  | .unary i op e, ov, pos => by simp [adjustCtx, offE, offE_adjustCtx cfg sc w e]
+  | .ifexp i t b e, ov, pos => by
+      simp [adjustCtx, offE, offE_adjustCtx cfg sc w t, offE_adjustCtx cfg sc w b, offE_adjustCtx cfg sc w e]
+  | .compare i l ops rs, ov, pos => by simp [adjustCtx, offE, offE_adjustCtx cfg sc w l, offEs_adjustCtx cfg sc w rs]
+  | .binop i op l r, ov, pos => by simp [adjustCtx, offE, offE_adjustCtx cfg sc w l, offE_adjustCtx cfg sc w r]
+  | .attr i v a c, ov, pos => by simp [adjustCtx, offE, offE_adjustCtx cfg sc w v]
+  | .subscript i v s c, ov, pos => by simp [adjustCtx, offE, offE_adjustCtx cfg sc w v, offE_adjustCtx cfg sc w s]
+  | .keyword i a h v, ov, pos => by simp [adjustCtx, offE, offE_adjustCtx cfg sc w v]
+  | .lambda i a b, ov, pos => by simp [adjustCtx, offE, offE_adjustCtx cfg sc w a, offE_adjustCtx cfg sc w b]
+  | .seq i k es c, ov, pos => by cases k <;> simp [adjustCtx, offE, offEs_adjustCtx cfg sc w es]
+  | .starred i v c, ov, pos => by simp [adjustCtx, offE, offE_adjustCtx cfg sc w v]
+  | .namedexpr i t v, ov, pos => by simp [adjustCtx, offE, offE_adjustCtx cfg sc w t, offE_adjustCtx cfg sc w v]
+  | .comp i k es gs, ov, pos => by simp [adjustCtx, offE, offEs_adjustCtx cfg sc w es, offEs_adjustCtx cfg sc w gs]
+  | .comprehension i t it ifs a, ov, pos => by
+      simp [adjustCtx, offE, offE_adjustCtx cfg sc w t, offE_adjustCtx cfg sc w it, offEs_adjustCtx cfg sc w ifs]
+  | .arguments i a b c d e f g, ov, pos => by
+      simp [adjustCtx, offE, offEs_adjustCtx cfg sc w a, offEs_adjustCtx cfg sc w b, offEs_adjustCtx cfg sc w c,
+        offEs_adjustCtx cfg sc w d, offEs_adjustCtx cfg sc w e, offEs_adjustCtx cfg sc w f, offEs_adjustCtx cfg sc w g]
+  | .arg i n an, ov, pos => by simp [adjustCtx, offE, offEs_adjustCtx cfg sc w an]
+  | .withitem i c v, ov, pos => by simp [adjustCtx, offE, offE_adjustCtx cfg sc w c, offEs_adjustCtx cfg sc w v]
+  | .other i k ats ks, ov, pos => by simp [adjustCtx, offE, offEs_adjustCtx cfg sc w ks]
+theorem offEs_adjustCtx (cfg : Cfg) (sc : List String) (w : Bool) :
+    ∀ (es : List Expr) (ov : Option Ctx) (ps : List Pos), offEs cfg sc w ps (adjustCtxs ov es) = offEs cfg sc w ps es
+  | [], _, _ => by simp [adjustCtxs, offEs]
+  | e :: es, ov, ps => by simp [adjustCtxs, offEs, offE_adjustCtx cfg sc w e, offEs_adjustCtx cfg sc w es]
+end
+
+theorem offE_tmplArg (cfg : Cfg) (sc : List String) (w : Bool) (pos : Pos) (e : Expr) :
+    offE cfg sc w pos (tmplArg e) = offE cfg sc w pos e := by
+  unfold tmplArg tmplArgCtx
+  split
+  · exact offE_adjustCtx cfg sc w e _ pos
+  · rfl
+
+/-! ### the argument packing of `converted_call` -/
+theorem offEs_nil_append (cfg : Cfg) (sc : List String) (w : Bool) :
+    ∀ (a b : List Expr), offEs cfg sc w [] (a ++ b) = offEs cfg sc w [] a ++ offEs cfg sc w [] b
+  | [], b => by simp [offEs]
+  | x :: a, b => by simp [offEs, offEs_nil_append cfg sc w a b, List.append_assoc]
+
+theorem tupleCall_CF (cfg : Cfg) (sc : List String) (w : Bool) (v : Expr) (hv : CF (offE cfg sc w .normal v)) :
+    CF (offE cfg sc w .packA (.call 0 (nm "tuple") [v] [])) := by
+  have h1 : callOk cfg sc w .packA (nm "tuple") [v] [] = true := by simp [callOk, packOk, isNameOf, nm]
+  have h2 : argPositions ((qnStr (nm "tuple")).getD "") = [] := by decide
+  have h3 : offE cfg sc w .normal (nm "tuple") = [] := by simp [nm, offE]
+  simp only [offE, h1, h2, h3, if_true, offEs, headPos, List.nil_append, List.append_nil]
+  exact hv
+
+theorem consume_CF (cfg : Cfg) (sc : List String) (w : Bool) (acc spec : List Expr)
+    (ha : CF (offEs cfg sc w [] acc)) (hs : ∀ x ∈ spec, CF (offE cfg sc w .packA x)) :
+    ∀ x ∈ CallTrees.consume acc spec, CF (offE cfg sc w .packA x) := by
+  unfold CallTrees.consume
+  split
+  · exact hs
+  · intro x hx
+    rcases List.mem_append.mp hx with h | h
+    · exact hs x h
+    · simp at h; subst h; simpa [offE] using ha
+
+theorem argSpec_CF (cfg : Cfg) (sc : List String) (w : Bool) :
+    ∀ (args acc spec : List Expr), CF (offEs cfg sc w [] acc) → (∀ x ∈ spec, CF (offE cfg sc w .packA x)) →
+      CF (offEs cfg sc w [] args) → ∀ x ∈ CallTrees.argSpec acc spec args, CF (offE cfg sc w .packA x)
+  | [], acc, spec, ha, hs, _ => by
+      simp only [CallTrees.argSpec]; exact consume_CF cfg sc w acc spec ha hs
+  | a :: rest, acc, spec, ha, hs, hargs => by
+      simp only [offEs, headPos, List.tail_nil, CF_append] at hargs
+      cases a
+      case starred i v c =>
+        simp only [CallTrees.argSpec]
+        refine argSpec_CF cfg sc w rest [] _ (by simp [offEs, CF_nil]) ?_ hargs.2
+        intro x hx
+        rcases List.mem_append.mp hx with h | h
+        · exact consume_CF cfg sc w acc spec ha hs x h
+        · simp at h; subst h
+          exact tupleCall_CF cfg sc w v (by simpa [offE] using hargs.1)
+      all_goals
+        simp only [CallTrees.argSpec]
+        refine argSpec_CF cfg sc w rest _ spec ?_ hs hargs.2
+        rw [offEs_nil_append, CF_append]
+        exact ⟨ha, by simpa [offEs, headPos] using hargs.1⟩
+
+theorem addAll_CF (cfg : Cfg) (sc : List String) (w : Bool) :
+    ∀ (xs : List Expr) (r : Expr), CF (offE cfg sc w .packA r) → (∀ x ∈ xs, CF (offE cfg sc w .packA x)) →
+      CF (offE cfg sc w .packA (CallTrees.addAll r xs))
+  | [], r, hr, _ => by simpa [CallTrees.addAll] using hr
+  | x :: xs, r, hr, hx => by
+      simp only [CallTrees.addAll]
+      refine addAll_CF cfg sc w xs _ ?_ (fun y hy => hx y (List.mem_cons_of_mem _ hy))
+      have hk : kidPos .packA "Add" = .packA := by decide
+      simp only [offE, hk, CF_append]
+      exact ⟨hr, hx x (List.mem_cons_self ..)⟩
+
+theorem argsToTuple_CF (cfg : Cfg) (sc : List String) (w : Bool) (args : List Expr)
+    (h : CF (offEs cfg sc w [] args)) : CF (offE cfg sc w .packA (CallTrees.argsToTuple args)) := by
+  unfold CallTrees.argsToTuple
+  have hs := argSpec_CF cfg sc w args [] [] (by simp [offEs, CF_nil]) (by intro x hx; cases hx) h
+  split
+  · simp [offE, offEs, CF_nil]
+  · rename_i x xs heq
+    rw [heq] at hs
+    exact addAll_CF cfg sc w xs x (hs x (List.mem_cons_self ..)) (fun y hy => hs y (List.mem_cons_of_mem _ hy))
+
+theorem kwargsToDict_CF (cfg : Cfg) (sc : List String) (w : Bool) (kws : List Expr)
+    (h : CF (offEs cfg sc w [] kws)) : CF (offE cfg sc w .packK (CallTrees.kwargsToDict kws)) := by
+  unfold CallTrees.kwargsToDict
+  split
+  · simp [noneConst, offE, CF_nil]
+  · have h1 : callOk cfg sc w .packK (nm "dict") [] kws = true := by simp [callOk, packOk, isNameOf, nm]
+    have h2 : argPositions ((qnStr (nm "dict")).getD "") = [] := by decide
+    have h3 : offE cfg sc w .normal (nm "dict") = [] := by simp [nm, offE]
+    simp only [offE, h1, h3, if_true, offEs, List.nil_append]
+    exact h
+
+theorem convertedCall_CF (cfg : Cfg) (sc : List String) (w : Bool) (pos : Pos) (ctx : String) (f : Expr) (as ks : List Expr)
+    (hf : CF (offE cfg sc w .normal f)) (ha : CF (offEs cfg sc w [] as)) (hk : CF (offEs cfg sc w [] ks)) :
+    CF (offE cfg sc w pos (CallTrees.convertedCall ctx f as ks)) := by
+  unfold CallTrees.convertedCall
+  have hq : calleeQn (ag "converted_call") = some "ag__.converted_call" := by decide
+  have hq' : qnStr (ag "converted_call") = some "ag__.converted_call" := by decide
+  have hok : callOk cfg sc w pos (ag "converted_call")
+      [tmplArg f, tmplArg (CallTrees.argsToTuple as), tmplArg (CallTrees.kwargsToDict ks), nm ctx] [] = true := by
+    have : startsWith "ag__.converted_call" "ag__." = true := by decide
+    simp [callOk, hq, allowedCallee, this]
+  have hp : argPositions ((qnStr (ag "converted_call")).getD "") = [.normal, .packA, .packK] := by
+    rw [hq']; decide
+  have h3 : offE cfg sc w .normal (ag "converted_call") = [] := by simp [ag, nm, offE]
+  have h4 : offE cfg sc w .normal (nm ctx) = [] := by simp [nm, offE]
+  simp only [offE, hok, hp, h3, if_true, List.nil_append]
+  simp only [offEs, headPos, List.tail, offE_tmplArg, h4, List.append_nil, CF_append]
+  exact ⟨hf, argsToTuple_CF cfg sc w as ha, kwargsToDict_CF cfg sc w ks hk⟩
+
+/-! ### the call_trees visitor -/
+section main
+variable (env : CallTrees.Env) (cfg : Cfg) (hb : cfg.builtinsOn = env.builtinsOn)
+
+/-- every function context name the annotations mention is a scope name known to the checker -/
+def ScOk (sc : List String) : Prop := ∀ i c, env.ctxOf i = some c → c ∈ sc
+
+include hb in
+theorem keep_allowed (sc : List String) (ctx full : String) (hctx : ctx ∈ sc)
+    (h : CallTrees.keep env ctx (some full) = true) : allowedCallee cfg sc full = true := by
+  simp only [CallTrees.keep, CallTrees.debuggers, Bool.or_eq_true, Bool.and_eq_true] at h
+  simp only [allowedCallee, NoNative.debuggers, Bool.or_eq_true, Bool.and_eq_true, List.any_eq_true]
+  rcases h with ((h1 | h2) | h3) | h4
+  · exact Or.inl (Or.inl (Or.inl h1))
+  · exact Or.inl (Or.inl (Or.inr ⟨ctx, hctx, h2⟩))
+  · exact Or.inl (Or.inr h3)
+  · exact Or.inr (by rw [hb]; exact h4)
+
+theorem ctx_of (sc : List String) (hsc : ScOk env sc) (ctx : String) (hctx : ctx ∈ sc) (i : Nat) :
+    (env.ctxOf i).getD ctx ∈ sc := by
+  cases h : env.ctxOf i with
+  | none => simpa using hctx
+  | some c => simpa using hsc i c h
+
+include hb in
+mutual
+theorem visitE_CF : ∀ (e : Expr) (sc : List String) (ctx : String) (w : Bool) (pos : Pos), ScOk env sc → ctx ∈ sc →
+    CF (offE cfg sc w pos (CallTrees.visitE env ctx e))
+  | .name .., _, _, _, _, _, _ => by simp [CallTrees.visitE, offE, CF_nil]
+  | .const .., _, _, _, _, _, _ => by simp [CallTrees.visitE, offE, CF_nil]
+  | .noneMarker, _, _, _, _, _, _ => by simp [CallTrees.visitE, offE, CF_nil]
+  | .call i f as ks, sc, ctx, w, pos, hsc, hctx => by
+      simp only [CallTrees.visitE]
+      have hf := visitE_CF f sc ctx w .normal hsc hctx
+      split
+      · rename_i hkeep
+        cases hq : qnStr f with
+        | none => simp [hq, CallTrees.keep] at hkeep
+        | some full =>
+            rw [hq] at hkeep
+            have hid := visitE_of_qn env ctx f full hq
+            rw [hid] at hf ⊢
+            have hok : callOk cfg sc w pos f (CallTrees.visitEs env ctx as) (CallTrees.visitEs env ctx ks) = true := by
+              simp [callOk, calleeQn_of_qn f full hq, keep_allowed env cfg hb sc ctx full hctx hkeep]
+            simp only [offE, hok, if_true, List.nil_append, CF_append]
+            exact ⟨⟨hf, visitEs_CF as sc ctx w _ hsc hctx⟩, visitEs_CF ks sc ctx w _ hsc hctx⟩
+      · exact convertedCall_CF cfg sc w pos ctx _ _ _ hf (visitEs_CF as sc ctx w _ hsc hctx) (visitEs_CF ks sc ctx w _ hsc hctx)
+  | .lambda i a b, sc, ctx, w, pos, hsc, hctx => by
+      simp only [CallTrees.visitE, offE, CF_append]
+      have hc := ctx_of env sc hsc ctx hctx i
+      exact ⟨visitE_CF a sc _ w _ hsc hc, visitE_CF b sc _ w _ hsc hc⟩
+  | .boolop i b vs, sc, ctx, w, pos, hsc, hctx => by
+      simp only [CallTrees.visitE, offE]; rw [CF_cons_other (by decide)]; exact visitEs_CF vs sc ctx w _ hsc hctx
+  | .unary i op e, sc, ctx, w, pos, hsc, hctx => by
+      simp only [CallTrees.visitE, offE, CF_append]
+      refine ⟨?_, visitE_CF e sc ctx w _ hsc hctx⟩
+      split
+      · simp [CF]
+      · exact CF_nil
+  | .ifexp i t b e, sc, ctx, w, pos, hsc, hctx => by
+      simp only [CallTrees.visitE, offE]; rw [CF_cons_other (by decide)]; simp only [CF_append]
+      exact ⟨⟨visitE_CF t sc ctx w _ hsc hctx, visitE_CF b sc ctx w _ hsc hctx⟩, visitE_CF e sc ctx w _ hsc hctx⟩
+  | .compare i l ops rs, sc, ctx, w, pos, hsc, hctx => by
+      simp only [CallTrees.visitE, offE, CF_append]
+      refine ⟨⟨?_, visitE_CF l sc ctx w _ hsc hctx⟩, visitEs_CF rs sc ctx w _ hsc hctx⟩
+      split
+      · exact CF_nil
+      · simp [CF]
+  | .binop i op l r, sc, ctx, w, pos, hsc, hctx => by
+      simp only [CallTrees.visitE, offE, CF_append]
+      exact ⟨visitE_CF l sc ctx w _ hsc hctx, visitE_CF r sc ctx w _ hsc hctx⟩
+  | .attr i v a c, sc, ctx, w, pos, hsc, hctx => by
+      simp only [CallTrees.visitE, offE]; exact visitE_CF v sc ctx w _ hsc hctx
+  | .subscript i v s c, sc, ctx, w, pos, hsc, hctx => by
+      simp only [CallTrees.visitE, offE, CF_append]
+      exact ⟨visitE_CF v sc ctx w _ hsc hctx, visitE_CF s sc ctx w _ hsc hctx⟩
+  | .keyword i a h v, sc, ctx, w, pos, hsc, hctx => by
+      simp only [CallTrees.visitE, offE]; exact visitE_CF v sc ctx w _ hsc hctx
+  | .seq i k es c, sc, ctx, w, pos, hsc, hctx => by
+      simp only [CallTrees.visitE, offE]; exact visitEs_CF es sc ctx w _ hsc hctx
+  | .starred i v c, sc, ctx, w, pos, hsc, hctx => by
+      simp only [CallTrees.visitE, offE]; exact visitE_CF v sc ctx w _ hsc hctx
+  | .namedexpr i t v, sc, ctx, w, pos, hsc, hctx => by
+      simp only [CallTrees.visitE, offE, CF_append]
+      exact ⟨visitE_CF t sc ctx w _ hsc hctx, visitE_CF v sc ctx w _ hsc hctx⟩
+  | .comp i k es gs, sc, ctx, w, pos, hsc, hctx => by
+      simp only [CallTrees.visitE, offE, CF_append]
+      exact ⟨visitEs_CF es sc ctx w _ hsc hctx, visitEs_CF gs sc ctx w _ hsc hctx⟩
+  | .comprehension i t it ifs a, sc, ctx, w, pos, hsc, hctx => by
+      simp only [CallTrees.visitE, offE, CF_append]
+      exact ⟨⟨visitE_CF t sc ctx w _ hsc hctx, visitE_CF it sc ctx w _ hsc hctx⟩, visitEs_CF ifs sc ctx w _ hsc hctx⟩
+  | .arguments i a b c d e f g, sc, ctx, w, pos, hsc, hctx => by
+      simp only [CallTrees.visitE, offE, CF_append]
+      exact ⟨⟨⟨⟨⟨⟨visitEs_CF a sc ctx w _ hsc hctx, visitEs_CF b sc ctx w _ hsc hctx⟩, visitEs_CF c sc ctx w _ hsc hctx⟩,
+        visitEs_CF d sc ctx w _ hsc hctx⟩, visitEs_CF e sc ctx w _ hsc hctx⟩, visitEs_CF f sc ctx w _ hsc hctx⟩,
+        visitEs_CF g sc ctx w _ hsc hctx⟩
+  | .arg i n an, sc, ctx, w, pos, hsc, hctx => by
+      simp only [CallTrees.visitE, offE]; exact visitEs_CF an sc ctx w _ hsc hctx
+  | .withitem i c v, sc, ctx, w, pos, hsc, hctx => by
+      simp only [CallTrees.visitE, offE, CF_append]
+      exact ⟨visitE_CF c sc ctx w _ hsc hctx, visitEs_CF v sc ctx w _ hsc hctx⟩
+  | .other i k ats ks, sc, ctx, w, pos, hsc, hctx => by
+      simp only [CallTrees.visitE, offE]; exact visitEs_CF ks sc ctx w _ hsc hctx
+theorem visitEs_CF : ∀ (es : List Expr) (sc : List String) (ctx : String) (w : Bool) (ps : List Pos), ScOk env sc → ctx ∈ sc →
+    CF (offEs cfg sc w ps (CallTrees.visitEs env ctx es))
+  | [], _, _, _, _, _, _ => by simp [CallTrees.visitEs, offEs, CF_nil]
+  | e :: es, sc, ctx, w, ps, hsc, hctx => by
+      simp only [CallTrees.visitEs, offEs, CF_append]
+      exact ⟨visitE_CF e sc ctx w _ hsc hctx, visitEs_CF es sc ctx w _ hsc hctx⟩
+end
+
+theorem plainArgs_CF (cfg : Cfg) (sc : List String) (w : Bool) :
+    ∀ (es : List Expr), es.all CallTrees.isPlainArg = true → offEs cfg sc w [] es = []
+  | [], _ => by simp [offEs]
+  | e :: es, h => by
+      simp only [List.all_cons, Bool.and_eq_true] at h
+      cases e <;> simp [CallTrees.isPlainArg] at h
+      rename_i i n an
+      obtain ⟨h1, h2⟩ := h
+      subst h1
+      simp [offEs, offE, headPos, plainArgs_CF cfg sc w es (List.all_eq_true.mpr h2)]
+
+include hb in
+theorem visitDefaults_CF (as : Expr) (sc : List String) (ctx : String) (hsc : ScOk env sc) (hctx : ctx ∈ sc)
+    (hp : CallTrees.plainArgs as = true) :
+    CF (offE cfg sc false .normal (CallTrees.visitDefaults env ctx as)) := by
+  cases as <;> simp [CallTrees.plainArgs] at hp
+  rename_i i po ar va ko kd kw df
+  have e1 := plainArgs_CF cfg sc false po (List.all_eq_true.mpr hp.1)
+  have e2 := plainArgs_CF cfg sc false ar (List.all_eq_true.mpr hp.2.1)
+  have e3 := plainArgs_CF cfg sc false va (List.all_eq_true.mpr hp.2.2.1)
+  have e4 := plainArgs_CF cfg sc false ko (List.all_eq_true.mpr hp.2.2.2.1)
+  have e5 := plainArgs_CF cfg sc false kw (List.all_eq_true.mpr hp.2.2.2.2)
+  simp only [CallTrees.visitDefaults, offE, e1, e2, e3, e4, e5, List.nil_append, List.append_nil, CF_append]
+  exact ⟨visitEs_CF env cfg hb kd sc ctx false _ hsc hctx, visitEs_CF env cfg hb df sc ctx false _ hsc hctx⟩
+
+theorem ScOk_append (sc : List String) (extra : List String) (h : ScOk env sc) : ScOk env (extra ++ sc) :=
+  fun i c hc => List.mem_append_right _ (h i c hc)
+
+include hb in
+mutual
+theorem visitS_CF : ∀ (s : Stmt) (sc : List String) (ctx : String) (roles : List String) (tail : Bool),
+    ScOk env sc → ctx ∈ sc → CallTrees.plainParams s = true →
+    CF (offS cfg sc roles tail (CallTrees.visitS env ctx s))
+  | .functionDef i n as b ds rs isA, sc, ctx, roles, tail, hsc, hctx, hp => by
+      simp only [CallTrees.plainParams, Bool.and_eq_true, Bool.or_eq_true] at hp
+      simp only [CallTrees.visitS]
+      split
+      · simp only [offS, CF_append]
+        exact ⟨⟨⟨visitE_CF env cfg hb as sc ctx false _ hsc hctx, visitEs_CF env cfg hb ds sc ctx false _ hsc hctx⟩,
+          visitEs_CF env cfg hb rs sc ctx false _ hsc hctx⟩, visitB_CF b sc ctx _ _ hsc hctx hp.2⟩
+      · rename_i hA
+        have hpa : CallTrees.plainArgs as = true := by
+          rcases hp.1 with h | h
+          · exact absurd h hA
+          · exact h
+        have hc := ctx_of env sc hsc ctx hctx i
+        simp only [offS, CF_append]
+        exact ⟨⟨⟨visitDefaults_CF env cfg hb as sc ctx hsc hctx hpa, visitEs_CF env cfg hb ds sc ctx false _ hsc hctx⟩,
+          visitEs_CF env cfg hb rs sc _ false _ hsc hc⟩, visitB_CF b sc _ _ _ hsc hc hp.2⟩
+  | .with_ i its b isA, sc, ctx, roles, tail, hsc, hctx, hp => by
+      simp only [CallTrees.plainParams] at hp
+      simp only [CallTrees.visitS]
+      split
+      · simp only [offS, CF_append]
+        exact ⟨withItems_CF cfg sc _ _, visitB_CF b _ ctx _ _ (ScOk_append env sc _ hsc) (List.mem_append_right _ hctx) hp⟩
+      · simp only [offS, CF_append]
+        exact ⟨withItems_CF cfg sc _ _, visitB_CF b _ ctx _ _ (ScOk_append env sc _ hsc) (List.mem_append_right _ hctx) hp⟩
+  | .classDef i n bs ks b ds, sc, ctx, roles, tail, hsc, hctx, hp => by
+      simp only [CallTrees.plainParams] at hp
+      simp only [CallTrees.visitS, offS, CF_append]
+      exact ⟨⟨⟨visitEs_CF env cfg hb bs sc ctx false _ hsc hctx, visitEs_CF env cfg hb ks sc ctx false _ hsc hctx⟩,
+        visitEs_CF env cfg hb ds sc ctx false _ hsc hctx⟩, visitB_CF b sc ctx _ _ hsc hctx hp⟩
+  | .ret i v, sc, ctx, roles, tail, hsc, hctx, _ => by
+      simp only [CallTrees.visitS, offS, CF_append]
+      refine ⟨?_, visitEs_CF env cfg hb v sc ctx false _ hsc hctx⟩
+      split
+      · exact CF_nil
+      · simp [CF]
+  | .delete i ts, sc, ctx, roles, tail, hsc, hctx, _ => by
+      simp only [CallTrees.visitS, offS]; exact visitEs_CF env cfg hb ts sc ctx false _ hsc hctx
+  | .assign i ts v, sc, ctx, roles, tail, hsc, hctx, _ => by
+      simp only [CallTrees.visitS, offS, CF_append]
+      exact ⟨visitEs_CF env cfg hb ts sc ctx false _ hsc hctx, visitE_CF env cfg hb v sc ctx false _ hsc hctx⟩
+  | .augAssign i t op v, sc, ctx, roles, tail, hsc, hctx, _ => by
+      simp only [CallTrees.visitS, offS, CF_append]
+      exact ⟨visitE_CF env cfg hb t sc ctx false _ hsc hctx, visitE_CF env cfg hb v sc ctx false _ hsc hctx⟩
+  | .annAssign i t an v s, sc, ctx, roles, tail, hsc, hctx, _ => by
+      simp only [CallTrees.visitS, offS, CF_append]
+      exact ⟨⟨visitE_CF env cfg hb t sc ctx false _ hsc hctx, visitE_CF env cfg hb an sc ctx false _ hsc hctx⟩,
+        visitEs_CF env cfg hb v sc ctx false _ hsc hctx⟩
+  | .for_ i t it b e x isA, sc, ctx, roles, tail, hsc, hctx, hp => by
+      simp only [CallTrees.plainParams, Bool.and_eq_true] at hp
+      simp only [CallTrees.visitS, offS]; rw [CF_cons_other (by decide)]; simp only [CF_append]
+      exact ⟨⟨⟨visitE_CF env cfg hb t sc ctx false _ hsc hctx, visitE_CF env cfg hb it sc ctx false _ hsc hctx⟩,
+        visitB_CF b sc ctx _ _ hsc hctx hp.1⟩, visitB_CF e sc ctx _ _ hsc hctx hp.2⟩
+  | .while_ i t b e, sc, ctx, roles, tail, hsc, hctx, hp => by
+      simp only [CallTrees.plainParams, Bool.and_eq_true] at hp
+      simp only [CallTrees.visitS, offS]; rw [CF_cons_other (by decide)]; simp only [CF_append]
+      exact ⟨⟨visitE_CF env cfg hb t sc ctx false _ hsc hctx, visitB_CF b sc ctx _ _ hsc hctx hp.1⟩,
+        visitB_CF e sc ctx _ _ hsc hctx hp.2⟩
+  | .if_ i t b e, sc, ctx, roles, tail, hsc, hctx, hp => by
+      simp only [CallTrees.plainParams, Bool.and_eq_true] at hp
+      simp only [CallTrees.visitS, offS]; rw [CF_cons_other (by decide)]; simp only [CF_append]
+      exact ⟨⟨visitE_CF env cfg hb t sc ctx false _ hsc hctx, visitB_CF b sc ctx _ _ hsc hctx hp.1⟩,
+        visitB_CF e sc ctx _ _ hsc hctx hp.2⟩
+  | .raise i e c, sc, ctx, roles, tail, hsc, hctx, _ => by
+      simp only [CallTrees.visitS, offS, CF_append]
+      exact ⟨visitEs_CF env cfg hb e sc ctx false _ hsc hctx, visitEs_CF env cfg hb c sc ctx false _ hsc hctx⟩
+  | .try_ i b hs e f, sc, ctx, roles, tail, hsc, hctx, hp => by
+      simp only [CallTrees.plainParams, Bool.and_eq_true] at hp
+      simp only [CallTrees.visitS, offS, CF_append]
+      exact ⟨⟨⟨visitB_CF b sc ctx _ _ hsc hctx hp.1.1.1, visitB_CF hs sc ctx _ _ hsc hctx hp.1.1.2⟩,
+        visitB_CF e sc ctx _ _ hsc hctx hp.1.2⟩, visitB_CF f sc ctx _ _ hsc hctx hp.2⟩
+  | .handler i t n b, sc, ctx, roles, tail, hsc, hctx, hp => by
+      simp only [CallTrees.plainParams] at hp
+      simp only [CallTrees.visitS, offS, CF_append]
+      exact ⟨visitEs_CF env cfg hb t sc ctx false _ hsc hctx, visitB_CF b sc ctx _ _ hsc hctx hp⟩
+  | .assert_ i t m, sc, ctx, roles, tail, hsc, hctx, _ => by
+      simp only [CallTrees.visitS, offS, CF_append]
+      exact ⟨visitE_CF env cfg hb t sc ctx false _ hsc hctx, visitEs_CF env cfg hb m sc ctx false _ hsc hctx⟩
+  | .import_ .., _, _, _, _, _, _, _ => by simp [CallTrees.visitS, offS, CF_nil]
+  | .importFrom .., _, _, _, _, _, _, _ => by simp [CallTrees.visitS, offS, CF_nil]
+  | .global .., _, _, _, _, _, _, _ => by simp [CallTrees.visitS, offS, CF_nil]
+  | .nonlocal .., _, _, _, _, _, _, _ => by simp [CallTrees.visitS, offS, CF_nil]
+  | .expr i v, sc, ctx, roles, tail, hsc, hctx, _ => by
+      simp only [CallTrees.visitS, offS]; exact visitE_CF env cfg hb v sc ctx false _ hsc hctx
+  | .pass .., _, _, _, _, _, _, _ => by simp [CallTrees.visitS, offS, CF_nil]
+  | .break_ .., _, _, _, _, _, _, _ => by simp [CallTrees.visitS, offS, CF]
+  | .continue_ .., _, _, _, _, _, _, _ => by simp [CallTrees.visitS, offS, CF]
+  | .other i k es bs, sc, ctx, roles, tail, hsc, hctx, hp => by
+      simp only [CallTrees.plainParams] at hp
+      simp only [CallTrees.visitS, offS, CF_append]
+      exact ⟨visitEs_CF env cfg hb es sc ctx false _ hsc hctx, visitB_CF bs sc ctx _ _ hsc hctx hp⟩
+theorem visitB_CF : ∀ (b : List Stmt) (sc : List String) (ctx : String) (roles : List String) (tail : Bool),
+    ScOk env sc → ctx ∈ sc → CallTrees.plainParamsB b = true →
+    CF (offB cfg sc roles tail (CallTrees.visitB env ctx b))
+  | [], _, _, _, _, _, _, _ => by simp [CallTrees.visitB, offB, CF_nil]
+  | s :: ss, sc, ctx, roles, tail, hsc, hctx, hp => by
+      simp only [CallTrees.plainParamsB, Bool.and_eq_true] at hp
+      simp only [CallTrees.visitB, offB, CF_append]
+      exact ⟨visitS_CF s sc ctx roles _ hsc hctx hp.1, visitB_CF ss sc ctx roles tail hsc hctx hp.2⟩
+end
+
+end main
+
 end Malt.C04
